@@ -46,8 +46,10 @@ Step(e) ==
                  ELSE "request on a closed or never issued handle reached a handler or changed a file")
          /\ UNCHANGED <<bad, kind>>
     [] e.ev = "Op" /\ e.op = "close" ->
-         /\ Close(e.h)
-         /\ Flag((e.h \in valid) # e.ok, IF e.h \in valid THEN "close of an open handle failed" ELSE "close of a closed or never issued handle succeeded")
+         /\ Close(e.h, e.objfail)
+         /\ Flag((e.h \in valid /\ ~e.objfail) # e.ok,
+                 IF e.h \in valid THEN (IF e.objfail THEN "close succeeded although the object's Close reported an error" ELSE "close of an open handle failed")
+                 ELSE "close of a closed or never issued handle succeeded")
          /\ UNCHANGED <<bad, kind>>
     [] e.ev = "Op" /\ e.op = "inflightopen" ->
          \* an OPEN whose reply is not awaited: the model takes no step; its object (if any) is judged at ObjFinal (h = 0)
